@@ -30,6 +30,11 @@ def run(ctx):
     # (or three) reversed loops their SIGNED sum vanishes although none of them does
     ss += S.generate(ctx, 3 if ctx.quick else 12, 1, max_e=6, max_loops=5, routings_per_graph=6, names=["banana5", "banana5", "banana6"],
                      variant="permuted", kinds=("uniform",))
+    # every third sample with the matrix stability test on (a generous tolerance: a result that passes it is the same result - whatever the
+    # routine does after the test belongs to what is returned)
+    for i, s_ in enumerate(ss):
+        if i % 3 == 1:
+            s_["req"] = S.sample_request(s_["case"], s_["routing"], s_["table"], s_["xs"], tol=1e-3)
     S.run(ss)
     SC.corr_uv(ctx, ss)
     SC.corr_matrix(ctx, ss)     # V is computed from the inverse the matrix routine returns: model decomposition on the implementation's L
